@@ -33,6 +33,8 @@ CONSTANTS Interps,          \* interpreter instances, e.g. {"i1","i2"}
           ModSeq,           \* c11: the generated module ids, in order
           MaxOut,           \* c11: requires per generated module
           GenRot,           \* c11: TRUE = form/poke of an edge fixed by position
+          GenBack,          \* c11: "all" = any edge; "first" = edges to later modules
+                            \*      or from the last back to the first (random graphs mostly acyclic)
           MaxCtr,           \* bound on bumps of one module from the session
           LoadCap,          \* load counters saturate here
           MaxReq,           \* bound on commands per history (0 = unbounded)
@@ -117,7 +119,9 @@ Running == ctl.ph \in {"run", "rerun"}
 Bounded == MaxReq > 0
 CanStart(c) == \/ ctl.ph = "idle" /\ (Bounded => nreq < MaxReq)
                \/ ctl.ph = "failed" /\ ctl.cmd = c
-Count == nreq' = IF Bounded /\ ctl.ph = "idle" THEN nreq + 1 ELSE nreq
+\* (the immediate repeat of a failed command counts too, so that an exported
+\* edge depends only on the idle state and the command; it may exceed MaxReq)
+Count == nreq' = IF Bounded THEN nreq + 1 ELSE nreq
 
 \* a command ends: (the primed state variables must be fixed before this)
 Finish(e, c, out, startKey, re) ==
@@ -316,6 +320,7 @@ GenEdge(m, d, form, poke) ==
   /\ IF Len(gen) = 0 THEN TRUE ELSE Idx(gen[Len(gen)].m) <= Idx(m)
   /\ Cardinality({k \in DOMAIN gen : gen[k].m = m}) < MaxOut
   /\ \A k \in DOMAIN gen : ~(gen[k].m = m /\ gen[k].d = d)
+  /\ GenBack = "first" => (Idx(d) > Idx(m) \/ (Idx(d) = 1 /\ Idx(m) = Len(ModSeq)))
   /\ poke => form # "imp"                 \* the import list has no bump
   /\ GenRot => /\ form = Forms[((Idx(m) + Idx(d) + Len(gen)) % 4) + 1]
                /\ poke = (Len(gen) % 2 = 1 /\ form # "imp")
